@@ -413,6 +413,27 @@ func tDecodeExpect(t *tty, b []byte, p string, expect string) {
 	emit("t.dec", t.String()+"|"+hexs(b)+"|"+p, impl, expect)
 }
 
+// tMissingID: the MissingField error names the required field that is absent (not an optional field or a gap in the
+// ids below it)
+func tMissingID(t *tty, b []byte, p string, want int) {
+	if !mine() {
+		skip()
+		return
+	}
+	args := t.String() + "|" + hexs(b) + "|" + p
+	trace("t.missid", args)
+	impl := guarded(func() string {
+		y := reflect.New(t.goType())
+		err := thrift.Unmarshal(tproto(p), b, y.Interface())
+		var mf *thrift.MissingField
+		if errors.As(err, &mf) {
+			return fmt.Sprintf("missing %d", mf.Field.ID)
+		}
+		return "err:" + tErrClass(err)
+	})
+	emit("t.missid", args, impl, fmt.Sprintf("missing %d", want))
+}
+
 // widen returns a struct type with extra fields (ids unused by t) of assorted types, and a value of it
 // whose t-part is v: decoding its encoding into t must skip the extra fields.
 func widen(g *tgen, t *tty, v *tval) (*tty, *tval) {
@@ -542,6 +563,7 @@ func c04() {
 			}
 		}
 	}
+	c04Embedded()
 }
 
 // tDecodeAlt: every specification-conformant encoding of the same content is accepted with the same result: the
@@ -621,6 +643,7 @@ func c08() {
 					nv := &tval{k: tStruct, elems: append(append([]*tval(nil), v.elems[:i]...), v.elems[i+1:]...)}
 					if nb, err := thrift.Marshal(tproto(p), nt.toGo(nv).Addr().Interface()); err == nil {
 						tDecodeExpect(t, nb, p, "err:missing")
+						tMissingID(t, nb, p, f.id)
 					}
 					break
 				}
